@@ -599,6 +599,7 @@ func gen(r *rand.Rand, tier string, emit func(string)) {
 		scale = 25
 	}
 	genCores(r, scale, emit)
+	genTCP(emit)
 	genParams(r, scale, emit)
 	genHTTP(r, scale, emit)
 	genWS(r, scale, emit)
